@@ -31,10 +31,20 @@ PROPS = {
         suites=["fault"], tags={"contained", "nofail", "reopen"},
         rule="one EIO injected at every effective filesystem call of every history, then reads, two restarts and reads"),
     "C18": dict(
-        suites=["seq"], tags={"hash_identity"}, corr={"state", "dir"},
+        suites=["seq", "codec"], tags={"hash_identity", "roundtrip", "decoder_total"}, corr={"state", "dir"}, codec_kinds={"path", "unpath"},
         rule="entry hash == blake3(concat chunks) (blake3 crate oracle), file at hexpath(hash), for all chunkings"),
     "C20": dict(
         suites=["crash", "seq"], tags={"disk_wellformed", "disk_history"}, corr={"dir"}, crash_corr={"image"},
         rule="independent decoder of index and *.wal at every kill point: complete records, valid checksums, versions "
              "increasing and in their segment's range, snapshot+log == acknowledged history (or + in-flight op)"),
+    "C16": dict(
+        suites=["codec"], tags={"decoder_total", "roundtrip", "alloc_bound"},
+        rule="K1: random values of every encodable type through the real encoders, byte strings (valid, mutated, truncated, "
+             "length fields straddling the input, huge counts) through the real decoders under catch_unwind with a counting allocator; "
+             "distinct = distinct input lines",
+        assumptions=["'never panics or overflows' and the allocation bound are decided for the real code by K1 sampling (debug build, "
+                     "catch_unwind, counting allocator); the model has no overflow to exhibit"]),
+    "C17": dict(
+        suites=["range"], tags={"range_slice", "range_alloc"},
+        rule="K8: all (L, start, end) with L in {0,1,2,5,9[,17,40]}, bounds 0..L+2 plus 2^32, 2^63, 2^64-1, and L around 8191/8192/8193"),
 }
